@@ -28,7 +28,7 @@ def role_o(prog, R, fn, os_, role, ok_only=True):
     return bool(os_) and f is not None and all(is_call_to(prog, fn, o, f) and (not ok_only or o.proj[:1] == ("?ok",)) for o in os_)
 
 
-def check(ctx):
+def _check_own(ctx):
     prog = ctx.prog
     R = Roles(prog)
     eff = role_effects(prog, R, ["SLOT_PUSH", "SLOT_POP", "EXTEND", "KEY_RECORD_WRITE", "VAL_RECORD_WRITE", "FREE_HEAD_WRITE",
@@ -41,6 +41,7 @@ def check(ctx):
     check_pop(ctx, prog, R, eff)
     check_large_pop(ctx, prog, R, eff)
     tables.check_tables(ctx, prog, R)
+    tables.check_class_slot(ctx, prog, R)
     from . import cursor
     from .roles import M_PIECE, M_VFILE
     n_ops = cursor.check_cursor(ctx, prog, R, {M_PIECE, M_VFILE}, rule="free-slot-field-position")
@@ -370,3 +371,9 @@ def check_no_lost_head_update(ctx, prog, R):
                           "%s writes back a free-list link it read earlier although a call in between (%s) can itself change that list: "
                           "the intermediate update is overwritten and the slot it linked in is lost" % (fn.name, ", ".join(where(fn, c) for c in bad[:2])), where=where(fn, b))
     ctx.floor("no-lost-link-update", "read-modify-write sites of free-list links", n, 3)
+
+
+def check(ctx):
+    _check_own(ctx)
+    from .engine import import_rules
+    import_rules(ctx, "c01", {"op-wiring"})
